@@ -175,3 +175,15 @@ Theorem C17_operations_preserve_objects : forall h slots op h' id,
   step h slots op = SNew h' id -> forall k o, nth_error h k = Some o -> nth_error h' k = Some o.
 Proof. exact step_preserves_objects. Qed.
 Print Assumptions C17_operations_preserve_objects.
+
+From Coq Require Import Sorted.
+From Verif Require Import Proofs.IndexOrder.
+
+(* the enumeration order named in C17_generate_is_rowmajor_product, pointwise: the index vectors of the zipped groups come
+   in strictly increasing lexicographic order (first group slowest, last group fastest), for every number and size of groups *)
+Theorem C17_enumeration_order_lexicographic : forall sh, StronglySorted lex_lt (all_indices sh).
+Proof. exact all_indices_lex_sorted. Qed.
+Print Assumptions C17_enumeration_order_lexicographic.
+
+Example C17_example_enumeration_order : all_indices [2; 2] = [[0; 0]; [0; 1]; [1; 0]; [1; 1]].
+Proof. reflexivity. Qed.
